@@ -138,7 +138,7 @@ func runC15(c *c15Case) (v *vcommon.Violation, inconclusive bool) {
 		return runC15Delete(ctx, c, cl, name, paths)
 	}
 	for _, path := range paths {
-		pc := &pathClient{cl: cl, dmap: name, path: path, pick: c.Pick}
+		pc := &pathClient{cl: cl, dmap: name, path: path, pick: c.Pick, batch: true}
 		key := fmt.Sprintf("k-%d", path)
 		oldVal := []byte("old-" + strconv.Itoa(path))
 		if c.Op == "incr" || c.Op == "decr" {
@@ -329,7 +329,7 @@ func runC15Delete(ctx context.Context, c *c15Case, cl *vCluster, name string, pa
 	prep := &pathClient{cl: cl, dmap: name, path: pOwnerEmb}
 	counts := map[int]int64{}
 	for _, path := range paths {
-		pc := &pathClient{cl: cl, dmap: name, path: path, pick: c.Pick}
+		pc := &pathClient{cl: cl, dmap: name, path: path, pick: c.Pick, batch: true}
 		var keys []string
 		for i := 0; i < c.NKeys; i++ {
 			key := fmt.Sprintf("d-%d-%d", path, i)
